@@ -10,7 +10,7 @@ COQ_IMPORTS = ["Diag"]
 COQ_FN = "Diag.run_case"
 IMPL = "c18_impl.py"
 IMPL_JOBS = 8
-RULE = ("four case families. filter: line lists assembled from segments (complete runs of each of the three boilerplate patterns, "
+RULE = ("five case families. filter: line lists assembled from segments (complete runs of each of the three boilerplate patterns, "
         "partial runs = proper prefixes / one element replaced / out of order, at every position incl. the end of input, foreign "
         "lines incl. ones containing the short needles 'reraise'/'value' and the marker texts) plus uniformly random words over the "
         "line alphabet (exhaustive up to length 4-5 in the thorough tier). chain: d = 1..50 (thorough: ..300) awaiting tasks, a "
@@ -22,7 +22,7 @@ RULE = ("four case families. filter: line lists assembled from segments (complet
         "format_asynq_stack() called before the first yield, after a yield, or in a plain function called by the task "
         "(thorough: every source assignment for chains up to depth 5). repr: every (kind, lifecycle state) cell driven through the public API (exhaustive list) plus random "
         "object trees (dependency trees deeper than the dump cut-off, schedulers with queues) put into arbitrary attribute states. "
-        "distinct = different case tree; non-trivial = filter: >= 1 complete and >= 1 partial run; chain: depth >= 2; stack: depth "
+        "distinct = different case tree; non-trivial = filter: >= 1 complete and >= 1 partial run; chain: depth >= 2; observe: >= 2 observers; stack: depth "
         ">= 2; repr: every cell / tree with >= 1 nested object")
 TRUSTED = ["regular expressions that read status words back out of str()/repr()/dump() output (harness/impl/c18_impl.py parse_summary)",
            "Pygments (syntax highlighting inside format_error) and the traceback module are exercised, not modelled",
@@ -148,6 +148,88 @@ def gen_chain(rng, tier, malformed):
 def mk_chain(modes, bottom, pre_yields=1, shapes=None):
     return {"tree": {"CChain": [[{"": [m, h]} for m, h in modes], bottom]},
             "meta": {"family": "chain", "pre_yields": pre_yields, "shapes": shapes or []}}
+
+
+# --------------------------------------------------------------------------- generators: observers
+def mk_observe(modes, bottom, drv, observers, **meta):
+    """observers: list of observers, each a list of (how, catches) per reader level, outermost first
+    ([] = the driver looks at the failed task itself)."""
+    m = {"family": "observe", "pre_yields": 1, "shapes": []}
+    m.update(meta)
+    return {"tree": {"CObserve": [[{"": [a, h]} for a, h in modes], bottom, drv,
+                                  [[{"": [h, "true" if c else "false"]} for h, c in o] for o in observers]]},
+            "meta": m}
+
+
+def observer_levels(o):
+    return [(x[""][0], x[""][1] == "true") for x in o]
+
+
+def catching_level(o):
+    """The reader level that handles the error: the innermost one with a handler (None: the driver)."""
+    cs = [j for j, (_, c) in enumerate(observer_levels(o)) if c]
+    return cs[-1] if cs else None
+
+
+def observer_kind(o):
+    if not o:
+        return "driver-itself"
+    c = catching_level(o)
+    if c is None:
+        return "readers-propagate"
+    return "innermost-reader-handles" if c == len(o) - 1 else "outer-reader-handles"
+
+
+def gen_observer(rng, malformed):
+    r = rng.choice([0, 0, 1, 1, 1, 2, 2, 3, rng.randrange(0, 6)])
+    hows = ["HAwait" if rng.random() < 0.6 else "HSync" for _ in range(r)]
+    if malformed:
+        cs = [rng.random() < 0.5 for _ in range(r)]
+    else:
+        cs = [False] * r
+        q = rng.random()
+        if r and q < 0.35:
+            cs[-1] = True                      # the innermost reader copes with the failure
+        elif r and q < 0.5:
+            cs[rng.randrange(r)] = True        # some reader above does
+    return list(zip(hows, cs))
+
+
+def gen_observe(rng, tier, malformed):
+    quick = tier == "quick"
+    d = rng.choice([1, 1, 2, 2, 3, 3, 4, 6, rng.randrange(1, 13 if quick else 41)])
+    ms = []
+    for i in range(d - 1):
+        m = rng.choice(MODES) if malformed else rng.choice(["MPass"] * 6 + ["MReraise"] * 2 + ["MRaiseE", "MLater"])
+        ms.append((m, "HSync" if rng.random() < 0.2 else "HAwait"))
+    r = rng.random()
+    bottom = ({"BRaise": [{"n": rng.choice([0, 1, 1, 2])}]} if r < 0.75 else "BErrorFuture" if r < 0.9
+              else {"BPrepared": [{"n": rng.choice([0, 1])}]})
+    n = rng.choice([1, 2, 2, 2, 3, 3, 4, 6] if quick else [1, 2, 2, 3, 3, 4, 6, 10])
+    obs = [gen_observer(rng, malformed) for _ in range(n)]
+    return mk_observe(ms, bottom, "HAwait" if rng.random() < 0.35 else "HSync", obs, malformed=malformed,
+                      pre_yields=rng.choice([0, 1, 1, 2]), precompute=rng.random() < 0.2,
+                      sync_via=[rng.choice(["value", "call"]) for _ in range(rng.choice([1, 2]))],
+                      fresh_caller=rng.random() < 0.7,
+                      shapes=[rng.choice(["single", "single", "list", "dict"]) for _ in range(d)])
+
+
+OBSERVER_SHAPES = [[], [("HAwait", False)], [("HSync", False)], [("HAwait", True)], [("HSync", True)],
+                   [("HAwait", False), ("HSync", False)], [("HAwait", True), ("HAwait", False)],
+                   [("HSync", False), ("HAwait", True)]]
+
+
+def exhaustive_observe():
+    """Every ordered pair of observer shapes (and every triple of the five one-level-or-less shapes), run from a
+    plain caller and from a task."""
+    out = []
+    for drv in ("HSync", "HAwait"):
+        for a in OBSERVER_SHAPES:
+            for b in OBSERVER_SHAPES:
+                out.append(mk_observe([("MPass", "HAwait")], {"BRaise": [{"n": 1}]}, drv, [a, b], exhaustive=True))
+        for t in itertools.product(OBSERVER_SHAPES[:5], repeat=3):
+            out.append(mk_observe([], {"BRaise": [{"n": 0}]}, drv, list(t), exhaustive=True, fresh_caller=False))
+    return out
 
 
 # --------------------------------------------------------------------------- generators: stack
@@ -368,10 +450,13 @@ def gen_cases(rng, tier):
         cs += exhaustive_filter(6, ["  in " + x for x in b])
         cs += [gen_stack(rng, tier, deep=n) for n in (100, 500, 900, 1100, 2000, 3000)]
         cs += exhaustive_stack(5)
+        cs += exhaustive_observe()
         for modes in itertools.product(MODES, repeat=3):
             cs.append(mk_chain([(m, "HAwait") for m in modes], {"BRaise": [{"n": 1}]}))
         for modes in itertools.product(MODES[:5], repeat=2):
             cs.append(mk_chain([(m, "HSync") for m in modes], "BErrorFuture"))
+    # generated last so that the PRNG stream of the older families is unchanged
+    cs += [gen_observe(rng, tier, rng.random() < 0.25) for _ in range(90 if quick else 800)]
     return cs
 
 
@@ -403,6 +488,14 @@ CORPUS = cell_cases() + [
     mk_chain([("MPass", "HAwait")] * 49, {"BRaise": [{"n": 1}]}),
     mk_chain([("MPass", "HAwait")] * 2, {"BPrepared": [{"n": 0}]}),
     mk_chain([("MReraise", "HAwait"), ("MPass", "HSync"), ("MLater", "HAwait")], {"BPrepared": [{"n": 2}]}),
+    # the same failed task observed more than once: a reader task that copes with the failure, then a
+    # chain of two readers that does not
+    mk_observe([("MPass", "HAwait")], {"BRaise": [{"n": 1}]}, "HSync",
+               [[("HSync", True)], [("HAwait", False), ("HSync", False)]]),
+    # ... the caller itself looks three times (value(), (), value())
+    mk_observe([("MPass", "HAwait")], {"BRaise": [{"n": 0}]}, "HSync", [[], [], []], sync_via=["value", "call"]),
+    # ... two tasks awaiting the same failed dependency one after the other inside a task, then that task itself
+    mk_observe([], {"BRaise": [{"n": 1}]}, "HAwait", [[("HAwait", False)], [("HAwait", False)], []]),
     mk_stack([]),
     mk_stack(["ByParent"] * 3),
     mk_stack(["ByParent", "ByHelper", "BySync", "Pre", "ByParent"]),
@@ -612,6 +705,80 @@ def monitors(c, io, build):
                 if lv != wnames[1:]:
                     fs.append(dict(clause="format-error-faithful", site="format_error:%s%s:levels-missing-or-reordered" % (pi, f["variant"].split(",")[0]),
                                    msg="format_error (%s) lists %s, expected %s" % (f["variant"], lv[:30], wnames[1:][:30])))
+    elif fam == "CObserve":
+        ms, bottom, drv, observers = c["tree"]["CObserve"]
+        want_f = expected_chain(ms, bottom)
+        per = obs.get("observers") or []
+        kinds = [observer_kind(o) for o in observers]
+        for k, o in enumerate(observers):
+            ob = per[k] if k < len(per) else {"raised": False}
+            nth = "first-observation" if k == 0 else "later-observation"
+            if want_f is None:
+                if ob.get("raised"):
+                    fs.append(dict(clause="chain-one-frame-per-level", site="observe:exception-after-swallow",
+                                   msg="observer %d saw an exception although a level of the observed task swallowed it" % k))
+                continue
+            if not ob.get("raised"):
+                fs.append(dict(clause="chain-one-frame-per-level", site="observe:no-exception-reached-observer:%s" % nth,
+                               msg="observer %d (%s) looked at the failed task and saw no exception" % (k, kinds[k])))
+                continue
+            if ob.get("exc_type") != "Boom":
+                fs.append(dict(clause="chain-one-frame-per-level", site="observe:wrong-exception-type:%s" % ob.get("exc_type"), msg="observer %d saw %s" % (k, ob.get("exc_type"))))
+            r = len(o)
+            cl = catching_level(o)
+            own = (["caller_frame"] if cl is None else []) + ["rdr_%d_%d" % (k, j) for j in range(cl or 0, r)]
+            want = [(n, 1, 1) for n in own] + want_f[1:]
+            uf = ob["user_frames"]
+            # frames that belong to another observer of the same failed task: none of them is in this observer's call chain
+            leaked, rest, seen_caller = {}, [], False
+            for n in uf:
+                m = re.match(r"^rdr_(\d+)_(\d+)$", n)
+                if m and int(m.group(1)) != k:
+                    k2, j2 = int(m.group(1)), int(m.group(2))
+                    c2 = catching_level(observers[k2]) if k2 < len(observers) else None
+                    kind = ("reader-that-handled-it" if c2 == j2 else "reader-that-let-it-propagate" if (c2 is None or j2 > c2)
+                            else "reader-that-never-saw-it")
+                    leaked.setdefault(kind, []).append(n)
+                elif n == "caller_frame" and (seen_caller or cl is not None):
+                    leaked.setdefault("driver-that-caught-it", []).append(n)
+                else:
+                    seen_caller = seen_caller or n == "caller_frame"
+                    rest.append(n)
+            for kind, names in sorted(leaked.items()):
+                fs.append(dict(clause="chain-one-frame-per-level", site="observe:frames-of-earlier-observer:%s" % kind,
+                               msg="observer %d (%s) of a failed task that %d observers looked at before (%s) caught a traceback with the user frames %s; "
+                                   "%s belong to another observer (%s), not to its call chain %s"
+                                   % (k, kinds[k], k, ", ".join(kinds[:k]), uf[:30], sorted(set(names))[:6], kind, [n for n, _, _ in want][:30])))
+            runs = [(n, len(list(g))) for n, g in itertools.groupby(rest)]
+            names = [n for n, _ in runs]
+            wnames = [n for n, _, _ in want]
+            if names != wnames:
+                missing = [n for n in wnames if n not in names]
+                if missing:
+                    site = "observe:missing-%s-frame" % ("level" if missing[0].startswith("lvl") else "reader" if missing[0].startswith("rdr")
+                                                         else "raising" if missing[0].startswith(("hlp", "prep")) else "caller")
+                elif sorted(names) == sorted(wnames):
+                    site = "observe:frames-out-of-call-order"
+                elif names[-1] != wnames[-1]:
+                    site = "observe:does-not-end-at-raising-frame"
+                else:
+                    site = "observe:extra-frames"
+                fs.append(dict(clause="chain-one-frame-per-level", site=site + ":" + nth,
+                               msg="observer %d (%s): user frames %s; expected its own chain and one frame per level of the failed task in call order: %s"
+                                   % (k, kinds[k], uf[:40], wnames[:40])))
+            else:
+                for (n, cnt), (_, lo, hi) in zip(runs, want):
+                    if not (lo <= cnt <= hi):
+                        fs.append(dict(clause="chain-one-frame-per-level", site="observe:frame-repeated:" + nth,
+                                       msg="observer %d (%s): frame %s appears %d times (allowed %d..%d) in %s" % (k, kinds[k], n, cnt, lo, hi, uf[:40])))
+                        break
+            for f in ob.get("formats", []):
+                if not f["ok"]:
+                    fs.append(dict(clause="format-error-total", site="format_error:observed-again:%s:%s" % (f["variant"].split(",")[0], f["exc"]),
+                                   msg="format_error raised %s (%s) for the error observer %d caught" % (f["exc"], f["variant"], k)))
+                elif not f["has_text"]:
+                    fs.append(dict(clause="format-error-total", site="format_error:observed-again:%s:empty" % f["variant"].split(",")[0],
+                                   msg="format_error returned nothing (%s) for the error observer %d caught" % (f["variant"], k)))
     elif fam == "CStack":
         s0, cs, srcs = stack_levels(c)
         want = expected_stack(cs)
@@ -684,6 +851,8 @@ def nontrivial(c):
         return len(t[0]) + 1 >= 2
     if fam == "CStack":
         return len(t[1]) >= 2
+    if fam == "CObserve":
+        return len(t[3]) >= 2
     if fam == "CRepr":
         return bool((c.get("meta") or {}).get("cell")) or isinstance(t[0], dict) and next(iter(t[0])) in ("OTask", "OBatch", "OSched") and len(json.dumps(t[0])) > 60
     return False
@@ -693,6 +862,8 @@ def distribution(cases):
     d = {"family": {}, "filter_len": {}, "filter_runs": {"complete>=1": 0, "partial>=1": 0, "both": 0, "partial_at_end": 0},
          "chain_depth": {}, "chain_modes": {}, "chain_sync_levels": 0, "chain_bottom": {}, "stack_depth": {}, "stack_created": {},
          "stack_sourceless": {"none": 0, "outermost-only": 0, "below-outermost": 0, "calling-task": 0, "all": 0}, "stack_nosrc_how": {}, "stack_call_site": {},
+         "observe_observers": {}, "observe_kinds": {}, "observe_driver": {}, "observe_reader_how": {},
+         "observe_second_look_after": {}, "observe_chain_depth": {},
          "repr_cells": 0, "repr_generated": {}, "malformed": 0}
 
     def bucket(n):
@@ -723,6 +894,22 @@ def distribution(cases):
                 d["chain_sync_levels"] += h == "HSync"
             bk = t[1] if isinstance(t[1], str) else "%s%d" % (next(iter(t[1])), next(iter(t[1].values()))[0]["n"])
             d["chain_bottom"][bk] = d["chain_bottom"].get(bk, 0) + 1
+        elif fam == "CObserve":
+            ms_, _b, drv, observers = t
+            n = len(observers)
+            nb = str(n) if n <= 4 else "5+"
+            d["observe_observers"][nb] = d["observe_observers"].get(nb, 0) + 1
+            d["observe_driver"][drv] = d["observe_driver"].get(drv, 0) + 1
+            b = bucket(len(ms_) + 1)
+            d["observe_chain_depth"][b] = d["observe_chain_depth"].get(b, 0) + 1
+            ks = [observer_kind(o) for o in observers]
+            for x in ks:
+                d["observe_kinds"][x] = d["observe_kinds"].get(x, 0) + 1
+            for x in set(ks[:-1]):      # what had looked at the task before somebody looked again
+                d["observe_second_look_after"][x] = d["observe_second_look_after"].get(x, 0) + 1
+            for o in observers:
+                for h, _c in observer_levels(o):
+                    d["observe_reader_how"][h] = d["observe_reader_how"].get(h, 0) + 1
         elif fam == "CStack":
             s0, kinds, srcs = stack_levels(c)
             b = bucket(len(kinds))
@@ -774,6 +961,33 @@ def shrink(c):
                 yield {"tree": {"CChain": [ms[:i] + [{"": ["MPass", "HAwait"]}] + ms[i + 1:], b]}, "meta": m2}
         if b != {"BRaise": [{"n": 0}]}:
             yield {"tree": {"CChain": [ms, {"BRaise": [{"n": 0}]}]}, "meta": m2}
+    elif fam == "CObserve":
+        ms, b, drv, observers = t
+        m2 = dict(meta, shapes=[])
+
+        def mk(ms=ms, b=b, drv=drv, observers=observers, meta=m2):
+            return {"tree": {"CObserve": [ms, b, drv, observers]}, "meta": meta}
+        for i in range(len(observers)):
+            yield mk(observers=observers[:i] + observers[i + 1:])
+        for i, o in enumerate(observers):
+            for j in range(len(o)):
+                yield mk(observers=observers[:i] + [o[:j] + o[j + 1:]] + observers[i + 1:])
+        for i in range(len(ms)):
+            yield mk(ms=ms[:i] + ms[i + 1:])
+        for i, mh in enumerate(ms):
+            if mh[""] != ["MPass", "HAwait"]:
+                yield mk(ms=ms[:i] + [{"": ["MPass", "HAwait"]}] + ms[i + 1:])
+        if b != {"BRaise": [{"n": 0}]}:
+            yield mk(b={"BRaise": [{"n": 0}]})
+        for i, o in enumerate(observers):
+            for j, x in enumerate(o):
+                if x[""][0] != "HAwait":
+                    yield mk(observers=observers[:i] + [o[:j] + [{"": ["HAwait", x[""][1]]}] + o[j + 1:]] + observers[i + 1:])
+        if drv != "HSync":
+            yield mk(drv="HSync")
+        plain_meta = dict(m2, pre_yields=1, precompute=False, sync_via=["value"], fresh_caller=True)
+        if plain_meta != m2:
+            yield mk(meta=plain_meta)
     elif fam == "CStack":
         s0, cs = t
         n = len(cs)
@@ -819,5 +1033,6 @@ def model_input(c):
 
 EXPLANATION = ("Coq theorems about Diag.v (filter_traceback rewriting, traceback gluing, creator chain, str/repr/dump totality) are "
                "re-checked; Diag.run_case is evaluated with vm_compute on every case and compared with asynq (pure and Cython "
-               "builds): filter_traceback output, hide-aware user frames of the traceback reaching the caller, the entries of "
+               "builds): filter_traceback output, hide-aware user frames of the traceback reaching the caller and of the traceback every one of several "
+               "observers of the same failed task catches, the entries of "
                "format_asynq_stack(), and the status words parsed out of str()/repr()/dump(). Monitors encode the statement directly.")
